@@ -1,7 +1,7 @@
 # C03 — canonicalize ⊑ normalize ⊑ fingerprint.
 from . import common
 from .common import Exc
-from .url_grammar import gen_su, spelling_variants, call, gen_url, wrap_junk
+from .url_grammar import gen_su, spelling_variants, call, gen_url, wrap_junk, wrap_redirect, insert_controls
 from .C04 import irrelevant_variants, composed_variant
 from .C02 import raw_unsafe
 
@@ -23,6 +23,25 @@ def run(res, tier, rng):
         return False
 
     has_n7 = any(k.get("id") == "F-N7" for k in known)
+    has_n10 = any(k.get("id") == "F-N10" for k in known)
+    import re as _re
+    _ctl = _re.compile("[\x00-\x1f\x7f-\x9f]")
+
+    has_n12 = any(k.get("id") == "F-N12" for k in known)
+    _redir = _re.compile(r"(?i)(?:\.ampproject\.org/[cv]/(?:s/)?|bc\.marfeelcache\.com/amp/|bc\.marfeel\.com/)")
+    _dotseg = _re.compile(r"(?i)(?:^|/)(?:\.|%2E){1,2}(?:/|$)")
+
+    def embedded_dot_segments(u):
+        """F-N12's class: a path-embedded redirection (ampproject / marfeel) whose embedded part holds '.' / '..' segments."""
+        parts = _redir.split(_ctl.sub("", u), 1)
+        if not has_n12 or len(parts) < 2:
+            return False
+        tail = parts[1].split("?", 1)[0].split("#", 1)[0]
+        return _dotseg.search(tail) is not None
+
+    def controls_matter(fn, u, **kw):
+        """F-N10's class: removing the raw control characters of u changes fn(u) (they hide or reveal a redirection)."""
+        return has_n10 and _ctl.search(u) is not None and call(fn, _ctl.sub("", u), **kw) != call(fn, u, **kw)
     nontriv = set()
     hits = {}
     urls = []
@@ -30,6 +49,12 @@ def run(res, tier, rng):
         urls.append(gen_url(rng))
         if rng.random() < 0.15:
             urls.append(wrap_junk(gen_url(rng), rng))
+        if rng.random() < 0.1:
+            w = wrap_redirect(gen_url(rng), rng)
+            urls.append(w)
+            urls.append(insert_controls(w, rng))
+        if rng.random() < 0.05:
+            urls.append(insert_controls(gen_url(rng), rng))
     for u in urls:
         for pa in (False, True):
             for q in (False, True):
@@ -44,6 +69,10 @@ def run(res, tier, rng):
                         hits.setdefault("F-N7", "normalize_url(canonicalize_url(u), platform_aware=True) differs on a Facebook / YouTube url whose raw spelling the platform branch sees, e.g. %r" % u)
                     elif q and raw_unsafe(u) and known:
                         hits.setdefault("F-C7", "normalize_url(canonicalize_url(u, quoted=True)) differs on a url holding a dangling '%%' or raw sub-delimiter, e.g. %r" % u)
+                    elif embedded_dot_segments(u):
+                        hits.setdefault("F-N12", "normalize_url(canonicalize_url(u)) != normalize_url(u) on a path-embedded redirection whose embedded url holds '.' / '..' segments (canonicalize_url resolves them against the redirector's path), e.g. %r" % u)
+                    elif controls_matter(normalize_url, u, platform_aware=pa):
+                        hits.setdefault("F-N10", "normalize_url(canonicalize_url(u)) != normalize_url(u) when control characters inside u hide its redirection from infer_redirection (normalize_url resolves before it removes them), e.g. %r" % u)
                     else:
                         res.violation("property", "normalize_url(canonicalize_url(u)) != normalize_url(u)", input=dict(url=u, quoted=q, platform_aware=pa), impl=[c, n1, n2])
                 else:
@@ -56,6 +85,10 @@ def run(res, tier, rng):
                             hits.setdefault("F-N7", "normalize_url(canonicalize_url(u), platform_aware=True) differs on a Facebook / YouTube url whose raw spelling the platform branch sees, e.g. %r" % u)
                         elif q and raw_unsafe(u) and known:
                             hits.setdefault("F-C7", "fingerprint_url(canonicalize_url(u, quoted=True)) differs on a url holding a dangling '%%' or raw sub-delimiter, e.g. %r" % u)
+                        elif embedded_dot_segments(u):
+                            hits.setdefault("F-N12", "normalize_url(canonicalize_url(u)) != normalize_url(u) on a path-embedded redirection whose embedded url holds '.' / '..' segments (canonicalize_url resolves them against the redirector's path), e.g. %r" % u)
+                        elif controls_matter(fingerprint_url, u, strip_suffix=ss, platform_aware=pa):
+                            hits.setdefault("F-N10", "normalize_url(canonicalize_url(u)) != normalize_url(u) when control characters inside u hide its redirection from infer_redirection (normalize_url resolves before it removes them), e.g. %r" % u)
                         else:
                             res.violation("property", "fingerprint_url(canonicalize_url(u)) != fingerprint_url(u)", input=dict(url=u, quoted=q, strip_suffix=ss, platform_aware=pa), impl=[c, f1, f2])
                     if not isinstance(n2, Exc):
@@ -63,6 +96,9 @@ def run(res, tier, rng):
                         # the pair (u, normalize_url(u)) falls under the statement only when both have the same normalized
                         # form (normalize_url is not claimed idempotent: 'amp-amp-x.com' -> 'amp-x.com' -> 'x.com')
                         if f3 != f2 and not q and call(normalize_url, n2, platform_aware=pa) == n2 and not (pa and has_n7 and platform_branch(u, n2)):
+                            if controls_matter(fingerprint_url, u, strip_suffix=ss, platform_aware=pa):
+                                hits.setdefault("F-N10", "normalize_url(canonicalize_url(u)) != normalize_url(u) when control characters inside u hide its redirection from infer_redirection (normalize_url resolves before it removes them), e.g. %r" % u)
+                                continue
                             res.violation("property", "u and normalize_url(u) have the same normalized form but different fingerprints", input=dict(url=u, strip_suffix=ss, platform_aware=pa), impl=[n2, f3, f2])
     # collision classes: spellings and irrelevant variants of one base, grouped by the weaker scheme
     for _ in range(600 if tier == "quick" else 10000):
@@ -90,7 +126,7 @@ def run(res, tier, rng):
         res.known_hits.append((fid, text))
     res.nontrivial = nontriv
     res.rule = ("composition equalities normalize(canonicalize(u)) = normalize(u), fingerprint(canonicalize(u)) = fingerprint(u), fingerprint(normalize(u)) = fingerprint(u) (when normalize(u) is its own normalized form) on urls of the C01 "
-                "grammar (a share of them inside whitespace / control characters in any order) x quoted x platform_aware x strip_suffix; collision classes: all C02 spellings and C04 variants (alone and composed) of a structured base grouped by canonical / normalized form, the "
+                "grammar (a share of them inside whitespace / control characters in any order, wrapped in redirects, with control characters dropped anywhere inside) x quoted x platform_aware x strip_suffix; collision classes: all C02 spellings and C04 variants (alone and composed) of a structured base grouped by canonical / normalized form, the "
                 "stronger scheme must be constant on each group. Non-trivial = urls on which the first equality holds non-vacuously.")
     res.sample(dict(url=urls[3], canonical=call(canonicalize_url, urls[3]), normalized=call(normalize_url, urls[3]), fingerprint=call(fingerprint_url, urls[3])))
     res.theorems = THEOREMS
